@@ -461,6 +461,24 @@ func descD(v ssa.Value, depth int) string {
 	case *ssa.UnOp:
 		switch x.Op {
 		case token.MUL:
+			// a load of a variable that lives in a heap cell only because a closure captures it, and that never
+			// changes: the value itself (plain values only; objects keep their type-rooted names)
+			if !isPointerLike(x.Type()) {
+				switch c := x.X.(type) {
+				case *ssa.Alloc:
+					if v, ok := cellValueAt(c, x); ok {
+						if _, isParam := v.(*ssa.Parameter); isParam {
+							return descD(v, depth+1)
+						}
+					}
+				case *ssa.FreeVar:
+					if v, ok := capturedValue(c); ok {
+						if _, isParam := v.(*ssa.Parameter); isParam {
+							return descD(v, depth+1)
+						}
+					}
+				}
+			}
 			return descD(x.X, depth+1)
 		case token.NOT:
 			return "!" + descD(x.X, depth+1)
@@ -1167,6 +1185,157 @@ func sortedKeysOf(c *ssa.Call) ssa.Value {
 		return nil
 	}
 	return k.Call.Args[0]
+}
+
+// isPointerLike: pointers, maps, slices, channels, functions, interfaces (values with identity).
+func isPointerLike(t types.Type) bool {
+	switch t.Underlying().(type) {
+	case *types.Pointer, *types.Map, *types.Slice, *types.Chan, *types.Signature, *types.Interface:
+		return true
+	}
+	return false
+}
+
+// cellValue: the local variable cell `al` (a parameter or local that was moved to the heap because a closure
+// captures it) holds one value for its whole life: exactly one store in the declaring function and none through
+// any closure that captures it. Returns that value.
+func cellValue(al *ssa.Alloc) (ssa.Value, bool) { return cellValueAt(al, nil) }
+
+// cellValueAt: the value the cell holds when instruction `at` executes (nil: whenever; then there must be exactly
+// one store): every store to the cell dominates `at`, the latest of them wins; no closure writes the cell.
+func cellValueAt(al *ssa.Alloc, at ssa.Instruction) (ssa.Value, bool) {
+	var stores []*ssa.Store
+	for _, r := range referrersOf(al) {
+		switch x := r.(type) {
+		case *ssa.Store:
+			if x.Addr == ssa.Value(al) {
+				stores = append(stores, x)
+			} else {
+				return nil, false // the address itself is stored somewhere
+			}
+		case *ssa.MakeClosure:
+			fn, _ := x.Fn.(*ssa.Function)
+			if fn == nil {
+				return nil, false
+			}
+			for i, b := range x.Bindings {
+				if b != ssa.Value(al) || i >= len(fn.FreeVars) {
+					continue
+				}
+				if !freeVarReadOnly(fn.FreeVars[i], 0) {
+					return nil, false
+				}
+			}
+		case *ssa.UnOp, *ssa.DebugRef:
+		default:
+			return nil, false
+		}
+	}
+	if len(stores) == 0 {
+		return nil, false
+	}
+	if at == nil {
+		if len(stores) == 1 {
+			return stores[0].Val, true
+		}
+		return nil, false
+	}
+	before := func(x, y ssa.Instruction) bool { // x executes before y on every path to y
+		if x.Block() == y.Block() {
+			for _, i := range x.Block().Instrs {
+				if i == x {
+					return true
+				}
+				if i == y {
+					return false
+				}
+			}
+			return false
+		}
+		return x.Block().Dominates(y.Block())
+	}
+	var last *ssa.Store
+	for _, st := range stores {
+		if !before(st, at) {
+			if before(at, st) && innermostLoopOf(at.Block()) == nil {
+				continue // a later store (the variable is reassigned after this read)
+			}
+			return nil, false
+		}
+		// a store inside a loop that also contains `at` could run again after `at`: only straight-line prefixes
+		if l := innermostLoopOf(st.Block()); l != nil {
+			return nil, false
+		}
+		if last == nil || before(last, st) {
+			last = st
+		}
+	}
+	if last == nil {
+		return nil, false
+	}
+	return last.Val, true
+}
+
+func freeVarReadOnly(fv *ssa.FreeVar, depth int) bool {
+	if depth > 3 {
+		return false
+	}
+	for _, r := range referrersOf(fv) {
+		switch x := r.(type) {
+		case *ssa.UnOp, *ssa.DebugRef:
+		case *ssa.MakeClosure:
+			fn, _ := x.Fn.(*ssa.Function)
+			if fn == nil {
+				return false
+			}
+			for i, b := range x.Bindings {
+				if b == ssa.Value(fv) && i < len(fn.FreeVars) && !freeVarReadOnly(fn.FreeVars[i], depth+1) {
+					return false
+				}
+			}
+		default:
+			return false
+		}
+	}
+	return true
+}
+
+// capturedValue: for a load `*fv` of a captured variable inside a closure, the single value the variable holds
+// (see cellValue), when the closure is created in exactly one place.
+func capturedValue(fv *ssa.FreeVar) (ssa.Value, bool) {
+	fn := fv.Parent()
+	if fn == nil || fn.Parent() == nil {
+		return nil, false
+	}
+	idx := -1
+	for i, f := range fn.FreeVars {
+		if f == fv {
+			idx = i
+		}
+	}
+	if idx < 0 {
+		return nil, false
+	}
+	var cell ssa.Value
+	var site *ssa.MakeClosure
+	nMC := 0
+	allInstrs(fn.Parent(), func(i ssa.Instruction) {
+		if mc, ok := i.(*ssa.MakeClosure); ok && mc.Fn == ssa.Value(fn) && idx < len(mc.Bindings) {
+			cell = mc.Bindings[idx]
+			site = mc
+			nMC++
+		}
+	})
+	if nMC != 1 {
+		return nil, false
+	}
+	switch c := cell.(type) {
+	case *ssa.Alloc:
+		return cellValueAt(c, site)
+	case *ssa.FreeVar:
+		return capturedValue(c)
+	}
+	return nil, false
 }
 
 // descNN describes a value that is known (or required elsewhere) to be non-nil: for the result of a
